@@ -287,7 +287,10 @@ def gen_expect(rng, tier):
         for kind in ("monomial", "random"):                # degree 2n: sharpness
             cases.append(draw(n, 2 * n, kind, shape=(3,)))
         for _ in range(3 if tier == "quick" else 12):      # nodes built in the float32 default dtype
-            cases.append(draw(n, rng.randint(0, 2 * n - 1), rng.choice(["monomial", "random"]), default="float32"))
+            # dimensioned float64 inputs only: with 0-dim float64 parameters torch's type promotion would run the whole
+            # rule in float32 (overflow at high degree), which is not what this family is about (node rounding)
+            cases.append(draw(n, rng.randint(0, 2 * n - 1), rng.choice(["monomial", "random"]), default="float32",
+                              shape=rng.choice(shapes[1:])))
     for _ in range(0 if tier == "quick" else 400):
         n = rng.choice(NS + [1, 2, 4, 7, 15])
         cases.append(draw(n, rng.randint(0, 2 * n - 1), rng.choice(["monomial", "random"])))
